@@ -1,31 +1,19 @@
 use crate::sym;
-use flatcontainer::impls::huffman_container::HuffmanContainer;
-use flatcontainer::*;
+use flatcontainer::impls::huffman_container::verif_hooks::Code;
+use std::collections::BTreeMap;
 
-// @h prop=C00 tier=quick kind=proof engine=paths timeout=900
-#[cfg_attr(kani, kani::proof, kani::unwind(14))]
-pub fn x_huff_raw2() {
-    let a = sym::u8();
-    let b = sym::u8();
-    let mut c = HuffmanContainer::<u8>::default();
-    let i = c.push([a, b].as_slice());
-    let o = c.index(i).into_owned();
-    assert!(o.len() == 2 && o[0] == a && o[1] == b);
-    sym::forget((c, o));
-}
-
-// @h prop=C00 tier=quick kind=proof engine=paths timeout=1800 unwindset="drop_glue|drop_in_place:1;from_fn|Decode.*map:258;insert_decode:258;any_void:258"
-#[cfg_attr(kani, kani::proof, kani::unwind(14))]
-pub fn x_huff_merge2() {
-    let a = sym::u8();
-    let b = sym::u8();
-    sym::assume(a != b);
-    let mut c = HuffmanContainer::<u8>::default();
-    let _ = c.push([a, b, a].as_slice());
-    let mut m = HuffmanContainer::merge_regions([&c].into_iter());
-    let i = m.push([a, b].as_slice());
-    let o = m.index(i).into_owned();
-    assert!(o.len() == 2 && o[0] == a && o[1] == b);
-    assert!(i == (0, 2));
-    sym::forget((c, m, o));
+// @h prop=C00 tier=quick kind=proof timeout=1500 unwindset="drop_glue|drop_in_place:1;from_fn:258;insert_decode:258;Decode.*map:258;any_void:258;into_iter|IntoIter|dying:4"
+#[cfg_attr(kani, kani::proof, kani::unwind(4))]
+pub fn x_create_from_single() {
+    let s = sym::u8();
+    let n = sym::i64();
+    sym::assume(n >= 1 && n <= 1000);
+    let mut counts = BTreeMap::new();
+    counts.insert(s, n);
+    let code = Code::<u8>::create_from(counts);
+    match code.code_of(&s) {
+        Some((bits, _)) => assert!(bits >= 1, "single symbol gets a zero-bit code"),
+        None => assert!(false, "symbol missing from the code"),
+    }
+    sym::forget(code);
 }
